@@ -7,9 +7,11 @@ def openMachine (args : List String) (hin hout : IO.FS.Stream) : Option (IO Bool
   | "shared" :: rest => (parseShared rest).map fun c => serve (numBus c.n c.m (Shared.machine c)) hin hout
   | "xbar" :: rest => (parseXbar rest).map fun c => serve (numBus c.n c.m (Crossbar.machine c)) hin hout
   | ["p2p"] => some (serve (numBus 1 1 P2P.machine) hin hout)
+  | "socbus" :: rest => (parseSoc rest).map fun c => serve (numBus c.n c.m (SocBus.machine c)) hin hout
   | _ => none
 
-/-- `call regiondec <origin> <size> <dw> <addrWidth> <a>` -> 0|1 ;
+/-- `call topology <socbus args>` -> none|p2p|shared|crossbar ;
+    `call regiondec <origin> <size> <dw> <addrWidth> <a>` -> 0|1 ;
     `call rrnext <policy 0=withdraw|1=ce> <n> <grant> <ce> <req bits as number>` -> next grant. -/
 def call (args : List String) : Option String :=
   match args with
@@ -17,6 +19,8 @@ def call (args : List String) : Option String :=
     match rest.mapM (·.toNat?) with
     | some [o, sz, dw, aw, a] => some (toString (b2n (regionDec o sz dw aw a)))
     | _ => none
+  | "topology" :: rest =>          -- same arguments as `open socbus`
+    (parseSoc rest).map fun c => topologyName c.topology
   | "rrnext" :: rest =>
     match rest.mapM (·.toNat?) with
     | some [p, n, g, ce, r] =>
